@@ -404,6 +404,8 @@ class Engine:
                     c.speculative = False
                 c.probe_env = self.probe_env(k)
                 actual = k.actuals(*args)
+                if hasattr(k, 'extra_ns'):
+                    fn.__globals__.update(k.extra_ns(*args))      # per-path stubs built from the symbolic arguments
                 try:
                     res = fn(*actual)
                     outcome = ('return', res)
